@@ -985,6 +985,77 @@ func ruleC04(r *Report) {
 
 	checkArtifactID(r, m, "C04.artifact-id")
 	checkMiddlewareIDs(r, m, "C04.middleware")
+	checkIDsForwarded(r, m, "C04.uses")
+}
+
+// checkIDsForwarded: inside the root package the set of outstanding request IDs is the caller's: wherever a function on
+// the consuming path hands a []string on to another function of the package, it is its own []string parameter, unchanged
+// (the library adds no ID of its own, e.g. the ID of the ArtifactResolve it issued, and drops none).
+func checkIDsForwarded(r *Report, m *spModel, rule string) {
+	p := m.P
+	sc := NewScope(p, r.Tier)
+	n := 0
+	for _, fn := range sortedFns(p, sc.Consume) {
+		if !p.InLibrary(fn) || fn.Pkg == nil || fn.Pkg.Pkg.Path() != modPath {
+			continue
+		}
+		hasIDs := false
+		for _, prm := range fn.Params {
+			hasIDs = hasIDs || types.TypeString(prm.Type(), nil) == "[]string"
+		}
+		if !hasIDs {
+			continue
+		}
+		for _, b := range fn.Blocks {
+			for _, in := range b.Instrs {
+				ci, ok := in.(ssa.CallInstruction)
+				if !ok {
+					continue
+				}
+				callee := ci.Common().StaticCallee()
+				if callee == nil || !p.InLibrary(callee) || callee.Pkg == nil || callee.Pkg.Pkg.Path() != modPath {
+					continue
+				}
+				for i, arg := range ci.Common().Args {
+					if i >= len(callee.Params) || types.TypeString(callee.Params[i].Type(), nil) != "[]string" {
+						continue
+					}
+					n++
+					cons := fmt.Sprintf("%s: outstanding request IDs handed to %s", p.FnName(fn), shortFn(callee))
+					bad := ""
+					for _, lf := range rootLeaves(arg, map[ssa.Value]bool{}) {
+						// (a parameter that a function literal captures lives in a cell that is assigned once, from the parameter)
+						if ld, ok := lf.(*ssa.UnOp); ok && ld.Op == token.MUL {
+							if al, ok := ld.X.(*ssa.Alloc); ok {
+								if sv := capturedSingleStore(al); sv != nil {
+									lf = sv
+								} else if sv := wholeStore(al); sv != nil {
+									lf = sv
+								}
+							}
+						}
+						if prm, ok := lf.(*ssa.Parameter); ok && prm.Parent() == fn {
+							continue
+						}
+						bad = lf.String()
+						if li, ok := lf.(ssa.Instruction); ok {
+							bad += " at " + p.InstrPos(li)
+						}
+					}
+					// (rootLeaves looks through append: an appended element shows up as a leaf)
+					if c, ok := arg.(*ssa.Call); ok {
+						if bi, ok := c.Call.Value.(*ssa.Builtin); ok && bi.Name() == "append" {
+							bad = firstNonEmpty(bad, "append at "+p.InstrPos(c))
+						}
+					}
+					r.Check(bad == "", rule, cons, p.InstrPos(in), "the function's own []string parameter", "the ID list passed on is not the caller's list unchanged: "+bad+" — an ID the caller never listed as outstanding can match")
+				}
+			}
+		}
+	}
+	if n == 0 {
+		r.Undecided(rule, "outstanding request IDs forwarded inside the package", "-", "no call passing a []string on the consuming path")
+	}
 }
 
 // checkArtifactID: in the function that calls ParseXMLArtifactResponse, the request-ID argument is
